@@ -44,7 +44,7 @@ res["suite_subset_same_with_and_without"] = tw[0] == two[0]
 res["tests_files"] = TESTS
 res["demo_output_with_change"] = o1[-600:]
 # checks against the change: applied to the scratch worktree /tmp/wt/CLEAN (same commit as /repo), never to /repo itself
-W = "/tmp/wt/CLEAN"
+W = os.environ.get("SEED_W", "/tmp/wt/CLEAN")
 head = sh("git -C /repo rev-parse HEAD")[1].strip()
 sh(f"git -C {W} checkout -q -- . && git -C {W} checkout -q --detach {head}")
 rc, o = sh(f"git -C {W} apply {diff}")
